@@ -303,7 +303,7 @@ func runC16(e *sim.Env) {
 			csock.ID()
 			csock.Active()
 		case 28:
-			srv.Of("/dyn" + fmt.Sprint(k%3)).Emit("down", k)
+			srv.Of("/dyn"+fmt.Sprint(k%3)).Emit("down", k)
 		case 29:
 			nsp.Local().Compress(true).Emit("down", k)
 		case 30:
